@@ -32,6 +32,10 @@ CLAIMED = {
    text='Coq theorems (coq/props/C09.v, 28) over models of ReadFileChunk, the aggregated progress callback and the download retry loop: for every request script of botocore\'s life cycle (any number/position of body rewinds, any read sizes, any reads and seeks while reporting is suppressed) the sum of reported bytes equals min(amount_read, size) whenever reporting is enabled, hence stays within [0, size] and equals size after a complete send; the aggregator conserves the raw sum; for every stream-fault script, read-size script and cancel point the per-range download sum stays in [0, len] and equals len on success; at most num_download_attempts requests, non-retryable errors never retried; copy part sizes sum to the size; totals over any interleaving of parts. The hypothesis "suppressed segments return to where they began" is decided by an extracted, proved-sound checker on every recorded body script. Tie checked every run: differential of the real ReadFileChunk (through all three input managers + aggregator) and of GetObjectTask._main (both classes) against the extracted models, end-to-end TransferManager runs with recording subscribers, and uploads through the real botocore client with a stubbed HTTP layer (500 then 200).',
    ref='DESIGN.md 5.C09',
    note='Trusted: Coq kernel; extraction + OCaml drivers + Python harness (correspondence only). Upload part sizes summing to the transfer size are taken from C14/C01. For uploads the subscriber never sees negative values (the aggregator absorbs a rewind into its pending amount): "taken back with negative values" holds literally at the raw callback level and for downloads.'),
+ 'C12': dict(
+   text='Coq theorems (coq/props/C12.v, 20) over models of SlidingWindowSemaphore and TaskSemaphore for EVERY acquire/release history: tokens per tag are 0,1,2,... in acquisition order; count = capacity - sum over tags of (next - lowest) for every history, with lowest the least unreleased token for well-formed ones; pending list sorted strictly between lowest and next; out-of-order release frees nothing and releasing the lowest frees exactly the released run; non-blocking acquire at zero raises and changes nothing; unknown tag / never-issued token / token below lowest rejected without change (true since fix F13; the pre-fix code is refuted by witness); quiescence restores full capacity; small-step model with sleeping/notified acquirers: a sleeping waiter always has a waker and no reachable state is stuck (no lost wake-up). Tie checked every run: exhaustive op sequences (2 tags, capacities 1..3, tokens 0..3, length <= 5), random histories to length 200 over 3 tags, malformed stream, real-thread blocking scenarios replayed through the concurrent model, end-to-end quiescence of every manager semaphore on real TransferManager runs.',
+   ref='DESIGN.md 5.C12',
+   note='Trusted: Coq kernel; extraction + OCaml driver + Python harness (correspondence only). Each lock-protected body is one atomic step; Condition.notify wakes at most one sleeping waiter, spurious wake-ups allowed. "Not blocked forever" is proved as an inductive safety invariant (a waker always exists), not as a temporal property under fairness. Window theorems that mention released sets assume well-formed histories (a checkable predicate: every accepted release names a granted, not yet released token).'),
 }
 
 
